@@ -18,7 +18,7 @@ package main
 //
 // An entry prints as LEVEL:msg:k=v;k=v:S — fields and S(tack) only where present in the output; the console encoder's
 // formatting (time, caller, JSON layout, stack text) is parsed away. Oracle: the enabled entries (level >= the memory
-// logger's minimum, through whichever logger), newest first, at most 1024; fields iff detail >= 2; stack iff detail >= 3
+// logger's minimum, through whichever logger), newest first, at most BufferSize; fields iff detail >= 2; stack iff detail >= 3
 // and zap attached one (level >= the AddStacktrace level); detail = decimal integer with optional sign, else 0, clamped
 // to int64.
 
